@@ -101,6 +101,7 @@ def run_doc(ctx, rep, corr, comps, family, rng, n_values, values_of=None, wf=Tru
         O.record_features(ctx, c)
         ctx.histo("family", family)
         vals = values_of(c) if values_of else None
+        first = None
         for k in range(len(vals) if vals is not None else n_values):
             try:
                 if vals is not None:
@@ -113,7 +114,22 @@ def run_doc(ctx, rep, corr, comps, family, rng, n_values, values_of=None, wf=Tru
             except Exception as e:  # noqa
                 ctx.count("value_generation_error:" + type(e).__name__)
                 continue
-            O.c01_check(ctx, rep, corr, c, obj, v, trig, family, wf=wf)
+            enc = O.c01_check(ctx, rep, corr, c, obj, v, trig, family, wf=wf)
+            if first is None and enc.ok:
+                first = (v, trig, enc.pdu)
+        # history independence: the first assignment encoded again AFTER the others, on the same objects, must give
+        # the same PDU and decode to the same values (no state may leak between calls)
+        if first is not None:
+            v, trig, pdu = first
+            again = O.impl_encode(obj, v, trig)
+            ctx.count("c01_history_reencode")
+            if not again.ok or again.pdu != pdu:
+                rep.report("history-independent", "encode-depends-on-earlier-calls", c, v, trig,
+                           {"first": pdu.hex(), "again": again.pdu.hex() if again.ok else again.status})
+            else:
+                d1, d2 = O.impl_decode(obj, pdu), O.impl_decode(obj, pdu)
+                if d1.ok != d2.ok or (d1.ok and V.norm(d1.value) != V.norm(d2.value)):
+                    rep.report("history-independent", "decode-depends-on-earlier-calls", c, v, trig, {"pdu": pdu.hex()})
 
 
 def overlapping_variant(rng, c):
